@@ -117,7 +117,8 @@ def _key(v):
 def ev(e, env, subst=None):
     """value of e with the variables in `subst` (name -> expression over the target's variables)
     replaced -- also in function and aggregate position -- and every other name looked up in env =
-    (seed, values); function symbols and subscripted names are pure hash tables keyed by the seed"""
+    (seed, values); calls and subscripts are pure hash tables of (value of the function / aggregate
+    expression, argument values, keyword argument values)"""
     seed, vals = env
     if isinstance(e, bool):
         return Fraction(int(e))
@@ -167,13 +168,9 @@ def ev(e, env, subst=None):
             if isinstance(e, p.CallWithKwargs):
                 kw = tuple(sorted((n, _key(ev(v, env, subst))) for n, v in e.kw_parameters.items()))
             tag = "call"
-        s = subst
-        while isinstance(head, p.Variable) and s is not None and head.name in s:
-            head, s = s[head.name], None
-        if isinstance(head, p.Variable):
-            hkey = ("name", head.name)
-        else:
-            hkey = ("value", _key(ev(head, env, s)))
+        # the function / aggregate is a value like any other (so that (1*r)[p] and r[p], which match()
+        # identifies by flattening, are the same thing); results are a pure table of that value
+        hkey = _key(ev(head, env, subst))
         return _h(seed, tag, hkey, args, kw)
     raise Unsupported(type(e).__name__)
 
